@@ -56,6 +56,29 @@ type mfJob struct {
 	Fmt  string  `json:"format,omitempty"` // fuzz
 	Mode string  `json:"mode,omitempty"`
 	Seed int64   `json:"seed,omitempty"`
+	// byte-edit case sampled by TLC (spec/ByteEdit.tla)
+	EC *mfEditCase `json:"ec,omitempty"`
+}
+
+type mfEdit struct {
+	K    int    `json:"k"`
+	Kind string `json:"kind"`
+	Op   string `json:"op"`
+}
+
+type mfEditObs struct {
+	Res       string `json:"res"`
+	Delivered int    `json:"delivered"`
+	Same      int    `json:"same"`
+	InvalidAt []int  `json:"invalid_at"`
+}
+
+type mfEditCase struct {
+	Format string `json:"format"`
+	Mode   string `json:"mode"`
+	E1     mfEdit `json:"e1"`
+	E2     mfEdit `json:"e2"`
+	N      int    `json:"n"` // entries of the valid file (NEntries of the configuration TLC ran with)
 }
 
 type mfLine struct {
@@ -70,6 +93,9 @@ type mfLine struct {
 	Same   int    `json:"same"`
 	Res    string `json:"res,omitempty"`
 	Seed   int64  `json:"seed,omitempty"`
+	// byte-edit lines (k = "edit"): the case, number of deliveries, positions of the invalid ones
+	EC  *mfEditCase `json:"ec,omitempty"`
+	Obs *mfEditObs  `json:"obs,omitempty"`
 	// diagnostics, not read by the specification
 	Info map[string]interface{} `json:"info,omitempty"`
 }
@@ -80,6 +106,7 @@ func malformedMain(args []string) {
 	out := fl.String("out", "", "trace output")
 	repo := fl.String("repo", "/repo", "pandora tree (bundled scenario payloads are read from it)")
 	fuzz := fl.Int("fuzz", 0, "byte-level mutation cases per format x mode")
+	editsPath := fl.String("edits", "", "NDJSON byte-edit cases sampled by TLC -simulate (ByteEdit.tla)")
 	batch := fl.Int("batch", 400, "jobs per child")
 	memMB := fl.Int("mem", 4096, "address-space limit of a child, MiB")
 	par := fl.Int("par", 4, "child processes running at the same time")
@@ -95,6 +122,17 @@ func malformedMain(args []string) {
 			}
 			cc := c
 			jobs = append(jobs, mfJob{K: "case", C: &cc})
+		}
+	}
+	if *editsPath != "" {
+		for _, m := range vt.ReadNDJSON(*editsPath) {
+			b, _ := json.Marshal(m)
+			var ec mfEditCase
+			if err := json.Unmarshal(b, &ec); err != nil {
+				panic(err)
+			}
+			e := ec
+			jobs = append(jobs, mfJob{K: "edit", EC: &e})
 		}
 	}
 	seed := vt.Seed()
@@ -217,10 +255,13 @@ func mfRunShard(jobs []mfJob, results []*mfLine, lo, hi int, prefix, repo string
 		}
 		j := jobs[next+completed]
 		what := mfCrashClass(stderr.String(), code)
-		ln := mfLine{K: j.K, C: j.C, Format: j.Fmt, Mode: j.Mode, Seed: j.Seed,
+		ln := mfLine{K: j.K, C: j.C, Format: j.Fmt, Mode: j.Mode, Seed: j.Seed, EC: j.EC,
 			Info: map[string]interface{}{"exit": code, "stderr": tail(firstLines(stderr.String(), 12), 1500)}}
 		if j.K == "case" {
 			ln.Evs = []mfEvent{{"Crash", what}}
+		} else if j.K == "edit" {
+			ln.Evs = []mfEvent{}
+			ln.Obs = &mfEditObs{Res: "crash", InvalidAt: []int{}}
 		} else {
 			ln.Res = "crash"
 			ln.Evs = []mfEvent{}
@@ -237,7 +278,10 @@ func mfHangMillis(confirmed int) int {
 	if confirmed == 0 {
 		return 5000
 	}
-	return 2000
+	if confirmed < 5 {
+		return 2000
+	}
+	return 500 // five confirmed hangs: the tree spins on a whole class of inputs; still 100 x the normal time, still re-run once
 }
 
 func tail(s string, n int) string {
